@@ -19,9 +19,10 @@ import (
 
 // impShape: one package of an AddImport history.
 type impPkg struct {
-	Segs    int  // number of symbolic path segments after the fixed prefix "w.example/"
-	Aliased bool // the source file imports it under an explicit alias
-	Vendor  bool // reached through a vendor directory (path = w.example/src/vendor/<rest>)
+	Segs         int  // number of symbolic path segments after the fixed prefix "w.example/"
+	Aliased      bool // the source file imports it under an explicit alias
+	Vendor       bool // reached through a vendor directory (path = w.example/src/vendor/<rest>)
+	VendorSuffix bool // the first path element merely ends in "vendor" (e.g. multivendor/catalog): nothing is vendored
 }
 
 type impShape struct {
@@ -41,6 +42,7 @@ func impShapes(tier string) []impShape {
 	add("plain+alias", false, impPkg{Segs: 2}, impPkg{Segs: 1, Aliased: true})
 	add("alias+alias", false, impPkg{Segs: 1, Aliased: true}, impPkg{Segs: 1, Aliased: true})
 	add("vendored-twice", true, impPkg{Segs: 2, Vendor: true})
+	add("element-ending-in-vendor", false, impPkg{Segs: 2, VendorSuffix: true}, impPkg{Segs: 1})
 	if tier == "thorough" {
 		add("1+1+1", false, impPkg{Segs: 1}, impPkg{Segs: 1}, impPkg{Segs: 1})
 		add("2+2+2", false, impPkg{Segs: 2}, impPkg{Segs: 2}, impPkg{Segs: 2})
@@ -166,7 +168,12 @@ func runImports(ic *IC, ex *exec.Exec, env *Env, sh impShape, bound int) {
 		var segs, san []*smt.Term
 		parts := []*smt.Term{c.StrC(impPrefix)}
 		for k := 0; k < p.Segs; k++ {
-			s := symPathSeg(ex, fmt.Sprintf("p%d_seg%d", i, k), bound)
+			var s *smt.Term
+			if p.VendorSuffix && k == 0 {
+				s = c.Concat(symPathSeg(ex, fmt.Sprintf("p%d_seg%dpre", i, k), 3), c.StrC("vendor"))
+			} else {
+				s = symPathSeg(ex, fmt.Sprintf("p%d_seg%d", i, k), bound)
+			}
 			segs = append(segs, s)
 			san = append(san, ex.Sanitize(rep, s, true))
 			parts = append(parts, c.StrC("/"), s)
@@ -233,6 +240,7 @@ func runImports(ic *IC, ex *exec.Exec, env *Env, sh impShape, bound int) {
 						ex.AssumeDomain(c.Not(c.Eq(u, decl(j))))
 					}
 				}
+				ex.AssumeDomain(c.Not(c.Eq(u, c.StrC("sync")))) // the std package registered last holds "sync"
 			}
 		}
 		for i := range ir.pkgs {
@@ -468,7 +476,11 @@ func importsCase(sh impShape, m map[string]string) *CLICase {
 	for i, p := range sh.Pkgs {
 		var segs []string
 		for k := 0; k < p.Segs; k++ {
-			segs = append(segs, nonEmpty(m[fmt.Sprintf("p%d_seg%d", i, k)], fmt.Sprintf("s%d%d", i, k)))
+			seg := nonEmpty(m[fmt.Sprintf("p%d_seg%d", i, k)], fmt.Sprintf("s%d%d", i, k))
+			if p.VendorSuffix && k == 0 {
+				seg = nonEmpty(m[fmt.Sprintf("p%d_seg%dpre", i, k)], "multi") + "vendor"
+			}
+			segs = append(segs, seg)
 		}
 		rel := strings.Join(segs, "/")
 		name := nonEmpty(m[fmt.Sprintf("p%d_name", i)], fmt.Sprintf("pk%d", i))
@@ -570,7 +582,11 @@ func (env *Env) importsObserve(sh impShape, m map[string]string) ([]string, stri
 			for i, pk := range sh.Pkgs {
 				var segs []string
 				for k := 0; k < pk.Segs; k++ {
-					segs = append(segs, nonEmpty(m[fmt.Sprintf("p%d_seg%d", i, k)], fmt.Sprintf("s%d%d", i, k)))
+					seg := nonEmpty(m[fmt.Sprintf("p%d_seg%d", i, k)], fmt.Sprintf("s%d%d", i, k))
+					if pk.VendorSuffix && k == 0 {
+						seg = nonEmpty(m[fmt.Sprintf("p%d_seg%dpre", i, k)], "multi") + "vendor"
+					}
+					segs = append(segs, seg)
 				}
 				if p == impPrefix+"/"+strings.Join(segs, "/") {
 					q = nonEmpty(m[fmt.Sprintf("p%d_name", i)], fmt.Sprintf("pk%d", i))
@@ -582,6 +598,29 @@ func (env *Env) importsObserve(sh impShape, m map[string]string) ([]string, stri
 		}
 		quals[q] = p
 		// a source alias that collides with nothing must be kept
+	}
+	// exactly the canonical paths of the packages the interface refers to, plus sync
+	want := map[string]bool{"sync": true}
+	for i, pk := range sh.Pkgs {
+		var segs []string
+		for k := 0; k < pk.Segs; k++ {
+			seg := nonEmpty(m[fmt.Sprintf("p%d_seg%d", i, k)], fmt.Sprintf("s%d%d", i, k))
+			if pk.VendorSuffix && k == 0 {
+				seg = nonEmpty(m[fmt.Sprintf("p%d_seg%dpre", i, k)], "multi") + "vendor"
+			}
+			segs = append(segs, seg)
+		}
+		want[impPrefix+"/"+strings.Join(segs, "/")] = true
+	}
+	for p := range paths {
+		if !want[p] {
+			findings = append(findings, "C11: imported path "+p+" is not the canonical path of a package the interface refers to")
+		}
+	}
+	for p := range want {
+		if !paths[p] {
+			findings = append(findings, "C11: package "+p+" is referred to but not imported")
+		}
 	}
 	for i, pk := range sh.Pkgs {
 		if !pk.Aliased {
